@@ -10,4 +10,11 @@ ok, problems, files = core.run_translators()
 print('translators:', 'ok' if ok else problems)
 "
 (cd lean && lake build)
+# build every registered theorem module once, so that the individual checks only re-check what changed
+MODS=$(python3 -c "
+import sys; sys.path.insert(0,'.')
+from vlib.props import PROPS
+print(' '.join(sorted({m for P in PROPS.values() for m in P['thm_modules']})))
+")
+(cd lean && lake build $MODS driver) || echo "setup: some theorem modules did not build (the checks will report which)"
 (cd harness && cargo build --offline)
